@@ -26,7 +26,8 @@ class Hooks:
     Stop = Stop
     Break = loopcut.Break
 
-    def __init__(self, w, sensors):
+    def __init__(self, w, sensors, func=None):
+        self.func = func
         self.w = w
         self.sensors = sensors
         self.reached = []
@@ -41,13 +42,20 @@ class Hooks:
                 ("starts_at_first_time", z3.Implies(tr_empty, idx == 0))]
 
     def _state(self, L):
-        return (_z(L["index"]).v, _z(L["measurement_time_index"]).v)
+        return (_z(L[self.roles["index"]]).v, _z(L[self.roles["mi"]]).v)
 
     def head(self, which, L):
         w, c = self.w, self.w.c
         self.reached.append(which)
         if which == "init":
-            bag = L["measurement_times"]
+            self.roles = sched.discover_roles(self.func, L)
+            r = self.roles
+            okr = all(r[k] for k in ("bag", "mi", "index")) and len(r["lists"]) >= 1 and len(r["models"]) == 2
+            c.prove("guard.roles_identified", z3.BoolVal(bool(okr)),
+                    "loop variables identified by role: measurement array %s, its cursor %s, row cursor %s, result lists %s, logs %s" % (r["bag"], r["mi"], r["index"], r["lists"], r["dicts"]))
+            if not okr:
+                raise Concretization("cannot identify the loop variables by role: %s" % {k: r[k] for k in ("bag", "mi", "index", "lists")})
+            bag = L[r["bag"]]
             ok_bag = isinstance(bag, sched.Bag) and bag.sentinel and bag.sorted and bag.unique
             c.prove("prologue.M.shape", z3.BoolVal(bool(ok_bag)), "measurement_times sorted, unique, clipped, +inf sentinel")
             if isinstance(bag, sched.Bag):
@@ -64,14 +72,15 @@ class Hooks:
             idx, mi = self._state(L)
             for nm, f in self._inv_parts(idx, mi, z3.BoolVal(True), z3.RealVal(0)):
                 c.prove("loop.init." + nm, f, "invariant holds on loop entry", concretize=w.concretize)
-            for m in (L["gyro_model"], L["accel_model"]):
+            for m in [L[k] for k in self.roles["models"]]:
                 ok = isinstance(m, sched.ModelStub) and m.events[:1] == ["reset"]
                 c.prove("prologue.models_reset_before_use", z3.BoolVal(bool(ok)), "reset_estimates first (%s)" % (getattr(m, "events", None),))
         elif which == "preserved":
             idx0, mi0, tr_empty, tr_last = self.pre
             idx1, mi1 = self._state(L)
-            A = L["times_result"]
-            others = [len(L[k]) for k in ("x_result", "P_result")]
+            tl, oth = sched.times_list(L, self.roles)
+            A = L[tl] if tl else []
+            others = [len(L[k]) for k in self.roles["lists"] if k != tl]
             c.prove("loop.results.same_length", z3.BoolVal(all(o == len(A) for o in others) and len(A) <= 1),
                     "times/x/P results appended together, at most once per iteration (%d, %s)" % (len(A), others))
             if len(A) >= 1:
@@ -99,8 +108,9 @@ class Hooks:
             for s in self.sensors:
                 nm = s.__class__.__name__
                 want = [t for x in self.sensors if x.__class__.__name__ == nm for (t, p) in x.calls if p]
-                c.prove("loop.innovation.one_row_per_present_sample", z3.BoolVal(len(L["innovations_times"][nm]) == len(want) and len(L["innovations"][nm]) == len(want)),
-                        "innovation rows appended: %d, samples present: %d" % (len(L["innovations_times"][nm]), len(want)))
+                counts = [len(L[dn][nm]) for dn in self.roles["dicts"]]
+                c.prove("loop.innovation.one_row_per_present_sample", z3.BoolVal(len(counts) == 2 and all(n_ == len(want) for n_ in counts)),
+                        "innovation rows appended: %s, samples present: %d" % (counts, len(want)))
             # increments batch (when increments are supplied)
             for b in self.batches:
                 lo, hi = b.a, b.b
@@ -123,16 +133,21 @@ class Hooks:
             c.assume(f, "Inv." + nm)
         r, _ = c.check()
         c.prove("guard.invariant_satisfiable", z3.BoolVal(r == z3.sat), "assumed invariant satisfiable (vacuity guard)")
-        for k in ("times_result", "x_result", "P_result"):
+        r = self.roles
+        for k in r["lists"]:
             del L[k][:]
-        for d in (L["innovations"], L["innovations_times"]):
-            for key in d:
-                del d[key][:]
+        for dn in r["dicts"]:
+            for key in L[dn]:
+                del L[dn][key][:]
         for s in self.sensors:
             s.calls = []
         self.batches = []
         self.pre = (idx, mi, tr_empty, tr_last)
-        return dict(index=ZSym(idx), measurement_time_index=ZSym(mi), P=OPAQUE, x=OPAQUE)
+        out = {r["index"]: ZSym(idx), r["mi"]: ZSym(mi)}
+        for k in r["stored"]:
+            if L.get(k) is OPAQUE and k not in out:
+                out[k] = OPAQUE
+        return out
 
 
 def build(py):
@@ -146,7 +161,7 @@ def scenario(py, code, mode, with_inc, equal_index=True):
     w = World(c, n_s)
     c.assume(w.N >= 2, "at least two trajectory rows")
     sensors = [sched.SensorA(w), sched.SensorB(w)][:n_s]
-    hooks = Hooks(w, sensors)
+    hooks = Hooks(w, sensors, func=F.run_feedforward_filter)
     hooks.batches = []
     cap = sched.BunchCapture()
 
